@@ -376,11 +376,12 @@ where
             return None;
         }
 
-        if COMPRESSED
-            && (symbol.as_() >= self.codes_encode.as_ref()?.len()
-                || self.codes_encode.as_ref()?[symbol.as_() as usize].len == 0)
-        {
-            return None;
+        if COMPRESSED {
+            let codes = self.codes_encode.as_ref()?;
+            match symbol.to_usize() {
+                Some(s) if s < codes.len() && codes[s].len != 0 => {}
+                _ => return None,
+            }
         }
 
         Some(unsafe { self.rank_unchecked(symbol, i) })
@@ -436,11 +437,12 @@ where
             return None;
         }
 
-        if COMPRESSED
-            && (symbol.as_() >= self.codes_encode.as_ref()?.len()
-                || self.codes_encode.as_ref()?[symbol.as_() as usize].len == 0)
-        {
-            return None;
+        if COMPRESSED {
+            let codes = self.codes_encode.as_ref()?;
+            match symbol.to_usize() {
+                Some(s) if s < codes.len() && codes[s].len != 0 => {}
+                _ => return None,
+            }
         }
 
         let symbol_len;
